@@ -298,6 +298,9 @@ func (r *Reconciler) commitChange(ctx context.Context, transaction *configapi.Tr
 		configuration.Committed.Change = transaction.ID.Index
 		configuration.Committed.Revision = configapi.Revision(transaction.ID.Index)
 		configuration.Committed.Ordinal = configuration.Committed.Ordinal + 1
+		if configuration.Committed.Values == nil {
+			configuration.Committed.Values = make(map[string]configapi.PathValue)
+		}
 		for path, value := range transaction.Values {
 			configuration.Committed.Values[path] = value
 		}
